@@ -63,7 +63,7 @@ CHECKS = {
             "serialisers exactly from its documented version on, and the model emits nothing undocumented except one recorded "
             "disagreement (cache headers on PUT /traits/{name}); that model is tied to the code on every run by comparing the member "
             "paths, headers and status of one real answer per operation and version (1 639 comparisons) with the model evaluated in "
-            "Coq; plus exhaustive probing of the real service (3800 availability probes, 59 versioned features x 40 versions, headers).",
+            "Coq; plus exhaustive probing of the real service (6 281 availability probes, 61 versioned features x 40 versions, headers).",
             "6 C14", "Trusted: kernel, translate/routes.py (ast reader, fail-closed), the documented surface transcribed by hand "
             "into spec/surface.json (request and response members), microversion_parse modelled; Spec/RespFields.v is a hand-written "
             "model of the serialisers, validated by the per-answer tie.",
@@ -77,7 +77,7 @@ CHECKS = {
             "whitelist), oslo.policy evaluation modelled; keystonemiddleware not exercised (noauth2).",
             "Coq proof over regenerated tables (translator) + exhaustive authorisation matrix"),
 }
-CONC_NOTE = ("Trusted: Coq 8.16.1 kernel (+vm_compute), no axioms; Model/Conc.v (requests as explicit thread state machines, one step = "
+CONC_NOTE = ("Trusted: Coq 8.16.1 kernel (+vm_compute), no axioms; Model/Conc.v and, for every request kind, Model/ConcAll.v (requests as explicit thread state machines, one step = "
              "one top-level database transaction, the retry loop of replace_all with its partial work) is tied to /repo by executing "
              "generated scenarios under enumerated interleavings on the real WSGI app (deterministic scheduler: one thread per request on a "
              "file-backed SQLite database, parked between top-level transactions touching core tables) and inside Coq, comparing statuses and "
@@ -197,7 +197,7 @@ CHECKS.update({
             "execution as correspondence and search for failing inputs"),
     'C02': ("proof", "Proved for the code model's candidates, sharing providers included (C02_code_claimable_reachable, through the "
             "soundness of the search C03_sound): in every state reached by well-formed requests, whatever the candidate search returns "
-            "as a list, sent as returned as the allocations of a new consumer (from 1.28), is answered 204 by the allocation-write model "
+            "as a list, sent as returned as the allocations of a new consumer (at any microversion, with the members a client of that version sends), is answered 204 by the allocation-write model "
             "- consumer creation, provider look-ups, capacity and unit checks and both compare-and-swaps included; the claim is a legal "
             "request and the state after it is reachable again; no hypothesis on the database is left (Forest, RI and non-negative usage "
             "are proved invariants), one on the query (each class once in the unsuffixed group) is derived for accepted query strings. "
